@@ -148,7 +148,8 @@ def run(ck):
     # resources of parse_file / main
     w = []
     for p in paths:
-        if p.passed('fopen#1', False):
+        if not p.calls('fopen'): continue          # left before the file was opened (an argument guard): nothing to release
+        if p.passed('fopen#1', False) or p.passed('(fopen#1 == NULL)', True) or p.passed('(fopen#1 != NULL)', False):
             if p.calls('getline') or p.calls('fclose'): w.append('uses the file although fopen failed')
             continue
         if not p.calls('fclose') or p.calls('fclose')[0][2] != ('fopen#1',): w.append('file not closed')
@@ -402,10 +403,16 @@ class EchoBuffer:
         rl = [e for e in p.events if e[0] == 'call' and e[1] == 'realloc']
         if len(sets) > 1 or len(rl) > 1: return {'buf': None, 'cap': None, 'min': 0, 'problems': ['the echo buffer is reallocated / assigned more than once on a path'], 'at': (sets or rl)[0][-1]}
         # the growth test
-        tests = [e for e in p.events if e[0] == 'cond' and re.fullmatch(r"\((.+) (>|>=) (\w+)@static\)", e[1])]
-        if not tests: return {'buf': None, 'cap': None, 'min': 0, 'problems': ['no growth test  NEED > capacity  before the echo buffer is used'], 'at': None}
-        t = tests[0]; mt = re.fullmatch(r"\((.+) (>|>=) (\w+)@static\)", t[1])
-        need, capvar = mt.group(1), mt.group(3)
+        # the growth test is the first comparison with the capacity, before the decoder is started:  NEED > cap  or  cap < NEED
+        ini = next((k for k, e in enumerate(p.events) if e[0] == 'call' and e[1] == 'utf8_decode_init'), len(p.events))
+        t = None
+        for e in p.events[:ini]:
+            if e[0] != 'cond': continue
+            mt = re.fullmatch(r"\((.+) (>|>=) (\w+)@static\)", e[1])
+            if mt: t = e; need, op, capvar = mt.group(1), mt.group(2), mt.group(3); break
+            mt = re.fullmatch(r"\((\w+)@static (<|<=) (.+)\)", e[1])
+            if mt: t = e; need, op, capvar = mt.group(3), {'<': '>', '<=': '>='}[mt.group(2)], mt.group(1); break
+        if t is None: return {'buf': None, 'cap': None, 'min': 0, 'problems': ['no growth test  NEED > capacity  before the echo buffer is used'], 'at': None}
         if self.capvar is None:
             d = [x for x in astutil.find(self.tu.fn('sanitize_utf8'), 'VarDecl') if x['name'] == capvar]
             if not d or d[0].get('storageClass') != 'static': raise AnalysisBroken(f'echo buffer: the capacity variable {capvar} is not a static local')
@@ -434,7 +441,7 @@ class EchoBuffer:
             return {'buf': r, 'cap': need, 'min': lo, 'problems': probs, 'at': at}
         # no growth:  NEED <= capacity  (for `>`), so the old buffer has at least NEED >= lo bytes
         if rl or sets or capsets: probs.append('buffer or capacity changed although the growth test failed'); at = (rl or sets or capsets)[0][-1]
-        if mt.group(2) != '>': lo = max(lo - 1, 0)
+        if op != '>': lo = max(lo - 1, 0)
         return {'buf': 'sanitized@static', 'cap': f'{capvar}@static', 'min': lo, 'problems': probs, 'at': at}
 
 
